@@ -28,6 +28,8 @@ CFG_FLAGS = {
     # url_aggregator::buffer is moved to a heap block (reserve) before the state is loaded, so that every
     # symbolic-offset access of the editors hits a flat byte array instead of the SSO bytes embedded in the object
     "reserve": ["-DVK_RESERVE=40"],
+    # only always_inline functions are inlined: keeps crc32_ieee / inflate_raw out of line so that they can be stubbed
+    "noinline": ["-mllvm", "-inline-threshold=0", "-mllvm", "-inlinehint-threshold=0", "-mllvm", "-inlinecold-threshold=0"],
 }
 
 STR_REPLACE = "_ZNSt7__cxx1112basic_stringIcSt11char_traitsIcESaIcEE10_M_replaceEmmPKcm"
@@ -43,12 +45,13 @@ def log(*a):
 
 class Unit:
     """A set of root wrappers translated from one build configuration."""
-    def __init__(self, cfg, roots, stubs=(), prefix="", check_flags=False):
+    def __init__(self, cfg, roots, stubs=(), prefix="", check_flags=False, atomics_hook=False):
         self.cfg, self.roots, self.stubs, self.prefix = cfg, tuple(roots), tuple(stubs), prefix
         self.check_flags = check_flags
+        self.atomics_hook = atomics_hook
 
     def key(self):
-        h = hashlib.sha1(repr((self.cfg, self.roots, self.stubs, self.prefix, self.check_flags)).encode()).hexdigest()[:10]
+        h = hashlib.sha1(repr((self.cfg, self.roots, self.stubs, self.prefix, self.check_flags, self.atomics_hook)).encode()).hexdigest()[:10]
         return f"u_{self.cfg}_{self.prefix}{h}"
 
 
@@ -180,6 +183,8 @@ class Engine:
                     cmd += ["--prefix", unit.prefix]
                 if unit.check_flags:
                     cmd += ["--check-flags"]
+                if unit.atomics_hook:
+                    cmd += ["--atomics-hook"]
                 r = subprocess.run(cmd, capture_output=True, text=True)
                 if r.returncode != 0:
                     ent["err"] = "ll2c failed (%s): %s" % (" ".join(cmd[2:4])[:200], r.stderr[-800:])
@@ -276,6 +281,13 @@ class Engine:
             lines.append(f"#define VK_STR_MAX {obl.str_max}")
             lines.append(f'#include "{VERIF}/models/string_model.c"')
         lines.append(f'#include "{VERIF}/harness/{obl.harness}"')
+        if mode == "replay":
+            # the real object code allocates with the global operator new/delete: replace them (as any C++ program may)
+            # by counting versions so that the ghost counter of models.c is also maintained in native replays
+            lines.append("void* _Znwm(size_t n) { vk_live_blocks++; return malloc(n ? n : 1); }\nvoid* _Znam(size_t n) { vk_live_blocks++; return malloc(n ? n : 1); }\n"
+                         "void* _ZnwmRKSt9nothrow_t(size_t n, void* t) { (void)t; vk_live_blocks++; return malloc(n ? n : 1); }\nvoid* _ZnamRKSt9nothrow_t(size_t n, void* t) { (void)t; vk_live_blocks++; return malloc(n ? n : 1); }\n"
+                         "void _ZdlPv(void* p) { if (p) vk_live_blocks--; free(p); }\nvoid _ZdaPv(void* p) { if (p) vk_live_blocks--; free(p); }\n"
+                         "void _ZdlPvm(void* p, size_t n) { (void)n; if (p) vk_live_blocks--; free(p); }\nvoid _ZdaPvm(void* p, size_t n) { (void)n; if (p) vk_live_blocks--; free(p); }\n")
         if mode != "cbmc":
             lines.append("int vk_fail_count = 0;\nvoid vk_skip(const char* why) { printf(\"ASSUME-FALSE: %s\\n\", why); exit(3); }\nint main(void) { harness(); if (vk_fail_count) { printf(\"REPLAY: %d check(s) failed\\n\", vk_fail_count); return 1; } printf(\"REPLAY: all checks passed\\n\"); return 0; }")
         path = os.path.join(self.work, f"{obl.name}.{mode}.c")
@@ -446,7 +458,7 @@ class Engine:
         init = c_init(res.cex)
         extra = f"#define REPLAY 1\n#define REPLAY_INIT {init}\n"
         outs = {}
-        for mode in ("replay", "tvgen"):
+        for mode in (("tvgen",) if obl.replay == "generated" else ("replay", "tvgen")):
             src = self.obl_file(obl, mode, extra)
             exe = src[:-2] + ".exe"
             objs = []
@@ -478,6 +490,10 @@ class Engine:
                 outs[mode] = {"rc": -2, "out": "timeout"}
         real = outs.get("replay", {})
         gen = outs.get("tvgen", {})
+        if obl.replay == "generated":
+            # schedule / stub counterexamples cannot be forced on the uninstrumented object code: they are re-executed
+            # natively on the translated real code with the same hooks (the translation itself is validated separately)
+            real = gen
         cb = set(d.get("description", "")[6:] for d in res.failed_props if d.get("description", "").startswith("PROP: "))
         cb |= set(d.get("description", "") for d in res.failed_props if d.get("description", "").startswith("NORETURN"))
         nat = set(re.findall(r"CHECK-FAIL: (.*)", real.get("out", "")))
